@@ -12,6 +12,74 @@ From AMV Require Import Base.ListSet Model.Schema Model.Machine Model.Subs Model
 From AMV Require Proofs.C06Proofs.
 Import ListNotations.
 
+(* ------------------------------------------------------------------------
+   When / WhenNot. Notions (Spec/C06.v):
+     plain_ev     no context ends, no Dispose, no WhenQuery with a context
+     coherent a   the activity read by the When / WhenNot calls is the activity
+                  told to the manager by processSubscriptions (act_upd)
+     told_cond    all states of the binding (in)active on the told activity
+     walked_later a later processed transition marked all states of the
+                  binding at once during ProcessWhen's walk over
+                  activated ++ deactivated (walk_full, hybrid)
+     held_later   the condition held at the end of a later processed transition
+   For histories of the machine model the event list is SubsTrace.events_of;
+   coherence of those event lists is evaluated on every observed trace by the
+   correspondence run (kind-1 codes), not proved from Model/Machine.v. *)
+
+(* full characterisation, any number of states: closed <-> the condition held
+   when subscribing or a later walk completed the binding *)
+Theorem when_iff : forall a0 pre k v neg sts ctx post,
+  let es := pre ++ EOp k v (when_op neg sts ctx) :: post in
+  forallb plain_ev es = true -> coherent a0 es -> fresh_k k post -> known v sts = true ->
+  let a1 := acts a0 pre in
+  closed_of (run init_sst es) k = told_cond neg sts a1 || walked_later neg sts a1 post.
+Proof. exact C06Proofs.when_iff_lemma. Qed.
+Print Assumptions when_iff.
+
+(* When1 / WhenNot1: closed <-> condition at subscribe or at the end of some
+   later processed transition *)
+Theorem when_single_state_iff : forall a0 pre k v neg x ctx post,
+  let es := pre ++ EOp k v (when_op neg [x] ctx) :: post in
+  forallb plain_ev es = true -> coherent a0 es -> fresh_k k post -> known v [x] = true ->
+  let a1 := acts a0 pre in
+  closed_of (run init_sst es) k
+  = Bool.eqb (a1 x) (negb neg) || held_later (fun a' => Bool.eqb (a' x) (negb neg)) a1 post.
+Proof. exact C06Proofs.when_single_state_iff_lemma. Qed.
+Print Assumptions when_single_state_iff.
+
+(* multi-state: never open once the condition has held *)
+Theorem when_no_lost_wakeup : forall a0 pre k v neg sts ctx post,
+  let es := pre ++ EOp k v (when_op neg sts ctx) :: post in
+  forallb plain_ev es = true -> coherent a0 es -> fresh_k k post -> known v sts = true ->
+  let a1 := acts a0 pre in
+  told_cond neg sts a1 || held_later (told_cond neg sts) a1 post = true ->
+  closed_of (run init_sst es) k = true.
+Proof. exact C06Proofs.when_no_lost_wakeup_lemma. Qed.
+Print Assumptions when_no_lost_wakeup.
+
+Theorem when_iff_nonvacuous :
+  let v := C06Proofs.ex_view [0] [1; 0; 0]%N 2 false in
+  let es := C06Proofs.ex_pre ++ EOp 0 v (when_op false [0; 1] None) :: C06Proofs.ex_post in
+  forallb plain_ev es = true /\ coherent C06Proofs.ex_a0 es /\ fresh_k 0 C06Proofs.ex_post /\
+  known v [0; 1] = true /\
+  told_cond false [0; 1] (acts C06Proofs.ex_a0 C06Proofs.ex_pre) = false /\
+  held_later (told_cond false [0; 1]) (acts C06Proofs.ex_a0 C06Proofs.ex_pre) C06Proofs.ex_post = false /\
+  walked_later false [0; 1] (acts C06Proofs.ex_a0 C06Proofs.ex_pre) C06Proofs.ex_post = true /\
+  closed_of (run init_sst es) 0 = true.
+Proof. exact C06Proofs.when_iff_nonvacuous_lemma. Qed.
+Print Assumptions when_iff_nonvacuous.
+
+Theorem when_single_nonvacuous :
+  let v := C06Proofs.ex_view [0] [1; 0; 0]%N 2 false in
+  let es := C06Proofs.ex_pre ++ EOp 0 v (when_op false [1] None) :: C06Proofs.ex_post in
+  forallb plain_ev es = true /\ coherent C06Proofs.ex_a0 es /\ fresh_k 0 C06Proofs.ex_post /\
+  known v [1] = true /\
+  Bool.eqb (acts C06Proofs.ex_a0 C06Proofs.ex_pre 1) true = false /\
+  held_later (fun a' => Bool.eqb (a' 1) true) (acts C06Proofs.ex_a0 C06Proofs.ex_pre) C06Proofs.ex_post = true /\
+  closed_of (run init_sst es) 0 = true.
+Proof. exact C06Proofs.when_single_nonvacuous_lemma. Qed.
+Print Assumptions when_single_nonvacuous.
+
 (* Stated: "a When channel never closes while its condition has not held".
    False: When [A;B] with A active closes on Set [B]. *)
 Theorem when_spurious_refuted :
@@ -24,6 +92,17 @@ Theorem when_spurious_refuted :
 Proof. exact C06Proofs.when_spurious_refuted_lemma. Qed.
 Print Assumptions when_spurious_refuted.
 
+(* what remains true: a closed channel means the condition held when
+   subscribing or all states were marked at once during a walk *)
+Theorem when_spurious_partial : forall a0 pre k v neg sts ctx post,
+  let es := pre ++ EOp k v (when_op neg sts ctx) :: post in
+  forallb plain_ev es = true -> coherent a0 es -> fresh_k k post -> known v sts = true ->
+  let a1 := acts a0 pre in
+  closed_of (run init_sst es) k = true ->
+  told_cond neg sts a1 = true \/ walked_later neg sts a1 post = true.
+Proof. exact C06Proofs.when_spurious_partial_lemma. Qed.
+Print Assumptions when_spurious_partial.
+
 (* Stated: "WhenQuery returns a channel that closes when ... or its context
    ended". False: with a context the call panics. *)
 Theorem whenquery_ctx_refuted :
@@ -35,7 +114,8 @@ Proof. exact C06Proofs.whenquery_ctx_refuted_lemma. Qed.
 Print Assumptions whenquery_ctx_refuted.
 
 (* Stated: whentime_iff for all histories incl. schema growth. False after
-   SetSchema. *)
+   SetSchema. (whentime_iff without SetSchema is NOT proved: the WhenTime index
+   is only covered by the correspondence run.) *)
 Theorem whentime_setschema_refuted :
   exists (sc : schema) (calls : list api_call) (ops : list sched_op),
     let es := C06Proofs.hist_events sc [] [] calls ops in
@@ -61,6 +141,26 @@ Theorem whenqueue_canceled_refuted :
 Proof. exact C06Proofs.whenqueue_canceled_refuted_lemma. Qed.
 Print Assumptions whenqueue_canceled_refuted.
 
+(* what remains true, over ALL event lists (ended contexts, SetSchema, Dispose
+   included) that do not hit the WhenQuery panic: the channel is closed if the
+   tick was reached when subscribing or by a later processSubscriptions *)
+Theorem whenqueue_partial : forall pre k v t post,
+  let es := pre ++ EOp k v (OWhenQueue t) :: post in
+  fresh_k k post -> ss_crashed (run init_sst es) = false ->
+  (t <=? v_qtick v)%N || processed_with (fun qt => (t <=? qt)%N) post = true ->
+  closed_of (run init_sst es) k = true.
+Proof. exact C06Proofs.whenqueue_partial_lemma. Qed.
+Print Assumptions whenqueue_partial.
+
+(* WhenQueueEnds: closed at once on an idle machine, else by the next queue end *)
+Theorem whenqueueends : forall pre k v post,
+  let es := pre ++ EOp k v OWhenQueueEnds :: post in
+  fresh_k k post -> ss_crashed (run init_sst es) = false ->
+  v_running v = false \/ In EQueueEnd post ->
+  closed_of (run init_sst es) k = true.
+Proof. exact C06Proofs.whenqueueends_lemma. Qed.
+Print Assumptions whenqueueends.
+
 (* Stated: when_single_state_iff for all op lists. False once a multi-state
    When with a context sharing the state had its context ended. *)
 Theorem when1_lost_refuted :
@@ -85,3 +185,37 @@ Theorem statectx_window_refuted :
     last (C06Proofs.polls_of ops es) [] = [true].
 Proof. exact C06Proofs.statectx_window_refuted_lemma. Qed.
 Print Assumptions statectx_window_refuted.
+
+(* what remains true of statectx_iff_tick_changed, over ALL event lists: a
+   context is canceled by the next ProcessStateCtx that lists its state
+   (fault-free: exactly the transitions that move its tick) ... *)
+Theorem statectx_partial : forall pre k v x post,
+  let es := pre ++ EOp k v (ONewStateCtx x) :: post in
+  fresh_k k post -> ss_crashed (run init_sst es) = false -> known v [x] = true ->
+  ctx_touched x post = true ->
+  closed_of (run init_sst es) k = true.
+Proof. exact C06Proofs.statectx_partial_lemma. Qed.
+Print Assumptions statectx_partial.
+
+(* ... and ProcessStateCtx cancels nothing but contexts of the listed states *)
+Theorem statectx_only : forall s act deact i,
+  is_closed (process_state_ctx s act deact) i = true ->
+  is_closed s i = true \/ exists x t, In x (act ++ deact) /\ In (x, (i, t)) (ss_sctx s).
+Proof. exact C06Proofs.statectx_only_lemma. Qed.
+Print Assumptions statectx_only.
+
+Theorem queue_ctx_nonvacuous :
+  let v := C06Proofs.ex_view [0] [1; 0; 0]%N 2 true in
+  (let es := C06Proofs.ex_pre ++ EOp 0 v (OWhenQueue 3) :: C06Proofs.ex_post in
+   ss_crashed (run init_sst es) = false /\
+   (3 <=? v_qtick v)%N || processed_with (fun qt => (3 <=? qt)%N) C06Proofs.ex_post = true /\
+   closed_of (run init_sst (C06Proofs.ex_pre ++ [EOp 0 v (OWhenQueue 3)])) 0 = false) /\
+  (let es := C06Proofs.ex_pre ++ EOp 0 v OWhenQueueEnds :: [EQueueEnd] in
+   ss_crashed (run init_sst es) = false /\
+   closed_of (run init_sst (C06Proofs.ex_pre ++ [EOp 0 v OWhenQueueEnds])) 0 = false) /\
+  (let post := [EStateCtx [1] [0]] in
+   let es := C06Proofs.ex_pre ++ EOp 0 v (ONewStateCtx 0) :: post in
+   ss_crashed (run init_sst es) = false /\ known v [0] = true /\ ctx_touched 0 post = true /\
+   closed_of (run init_sst (C06Proofs.ex_pre ++ [EOp 0 v (ONewStateCtx 0)])) 0 = false).
+Proof. exact C06Proofs.queue_ctx_nonvacuous_lemma. Qed.
+Print Assumptions queue_ctx_nonvacuous.
